@@ -384,20 +384,50 @@ def gen_scaled_nested(rng):
     return {"dim": d, "op": op, "args": args, "seed": rng.randrange(1 << 30)}
 
 
+def iface_product_arg(rng, g, op):
+    """products under NormalDerivative / Jump / Average / Minus / Plus: coefficients only (2*alpha, alpha*beta),
+    2, 3 and 4 non-coefficient factors with and without a numeric / Constant coefficient, one vector factor
+    (not under Dn), a normal derivative as a factor (Minus / Plus), optionally inside a sum"""
+    c = rng.random()
+    alpha, beta = {"k": "const", "name": "alpha"}, {"k": "const", "name": "beta"}
+    if c < 0.18:
+        term = {"k": "mul", "a": rng.choice([[g.number(), alpha], [alpha, beta], [g.number(), alpha, beta],
+                                              [g.number(), {"k": "pow", "b": alpha, "e": num(2)}]])}
+    else:
+        n = rng.choice([2, 2, 2, 3, 3, 4])
+        fs = [g.scalar(rng.choice([0, 0, 1])) for _ in range(n)]
+        if op in ("Minus", "Plus") and rng.random() < 0.12:
+            fs[rng.randrange(n)] = {"k": "op", "name": "Dn", "a": [g.sf()]}
+        if op != "Dn" and rng.random() < 0.3:
+            fs[rng.randrange(n)] = g.vector(rng.choice([0, 0, 1]))
+        if rng.random() < 0.5:
+            fs = rng.choice([[g.number()], [g.const()], [g.number(), g.const()]]) + fs
+        rng.shuffle(fs)
+        term = {"k": "mul", "a": fs}
+    if rng.random() < 0.2:
+        other = g.scalar(1)
+        if term["k"] == "mul" and any(f["k"] in ("vf",) or (f["k"] in ("add", "mul") and g_has(f, ("vf", "normal"))) for f in term["a"]):
+            other = g.vector(0)
+        return {"k": "add", "a": [term, other]}
+    return term
+
+
 def gen_case(rng, tier):
     d = rng.choice([1, 2, 2, 3, 3])
     depth = rng.randint(1, 2 if tier == "quick" else 3)
-    if rng.random() < 0.12:
+    if rng.random() < 0.17:
         # interface operators (extension)
         d = rng.choice([1, 2, 3])
         g = GGen(rng, d, nest=0, iface=True)
         op = rng.choice(IFACE)
         c = rng.random()
-        if op in ("Minus", "Plus") and c < 0.12:
+        if op in ("Minus", "Plus") and c < 0.1:
             arg = {"k": "op", "name": "Dn", "a": [g.scalar(1)]}
-        elif op in ("Minus", "Plus") and c < 0.18:
+        elif op in ("Minus", "Plus") and c < 0.15:
             arg = {"k": "normal"}
-        elif op != "Dn" and c < 0.35:
+        elif c < 0.55:
+            arg = iface_product_arg(rng, g, op)
+        elif op != "Dn" and c < 0.7:
             arg = g.vector(depth)
         else:
             arg = g.scalar(depth)
